@@ -43,6 +43,7 @@ MSG_CLASSES = [
     (r"^emit range start \d+ out of range", "VEmitStart"),
     (r"^emit range end \d+ out of range", "VEmitEnd"),
     (r"^emit range start \d+ >= end", "VEmitEmpty"),
+    (r"^entry point .*: global variables .* share binding @group", "VEpDupBinding"),
     (r"^entry point \d+ has empty name", "VEpEmptyName"),
     (r"^duplicate entry point name", "VEpDupName"),
     (r"^entry point .* \(@vertex\): must have a return value", "VEpVertexNoResult"),
@@ -151,40 +152,7 @@ def quick_sets(index):
     return res
 
 
-# ---- features of a lowered module (from the reflection dump) ----
-def _walk(x, f):
-    if isinstance(x, dict):
-        f(x)
-        for v in x.values():
-            _walk(v, f)
-    elif isinstance(x, list):
-        for v in x:
-            _walk(v, f)
-
-
-def module_features(ir):
-    """Set of feature tags of an IR dump used by the applicability rules."""
-    tags = set()
-
-    def visit(d):
-        t = d.get("_t")
-        if t:
-            tags.add(t)
-    _walk(ir, visit)
-    feats = set()
-    if "StmtAtomic" in tags or "AtomicType" in tags or "StmtImageAtomic" in tags:
-        feats.add("atomics")
-    if any(t.startswith("StmtRayQuery") or t.startswith("ExprRayQuery") or t in ("RayQueryType", "AccelerationStructureType")
-           for t in tags):
-        feats.add("ray_query")
-    ovs = ir.get("Overrides") or []
-    if ovs:
-        feats.add("overrides")
-        if any(o.get("Init") is None for o in ovs):
-            feats.add("override_without_default")
-    return feats
-
-
+# ---- applicability of option sets (module features are computed by acceptdrive: `features`) ----
 STAGE_VERTEX, STAGE_TASK, STAGE_MESH, STAGE_FRAGMENT, STAGE_COMPUTE = 0, 1, 2, 3, 4
 
 
@@ -250,10 +218,20 @@ def corpus_config(toml_text):
 # ---------------------------------------------------------------------------
 # error classes (stable keys): digits, quoted names and handles are dropped
 def err_class(msg):
-    m = re.sub(r'"[^"]*"', '"_"', msg or "")
-    m = re.sub(r"\d+", "N", m)
-    m = re.sub(r"\s+", " ", m)
-    return m[:100]
+    """Class of a diagnostic: its innermost clause (the wrapping context names the place, not the
+    defect); digits and quoted names dropped."""
+    m = re.sub(r"\s*\(and \d+ more errors?\)", "", msg or "")
+    m = re.sub(r'"[^"]*"', '"_"', m)
+    if " @ " in m and m.startswith("runtime error"):
+        return re.sub(r"\d+", "N", m)[:140]          # panic: message @ site
+    parts = [p.strip() for p in m.split(": ")]
+    k = 1
+    while k < len(parts) and (len(parts[-k]) < 12 or parts[-k].startswith("ir.") or k < 1):
+        k += 1
+    cls = ": ".join(parts[-k:])
+    cls = re.sub(r"\d+", "N", cls)
+    cls = re.sub(r"\s+", " ", cls)
+    return cls[:120]
 
 
 # ---------------------------------------------------------------------------
@@ -365,7 +343,7 @@ class CfGen:
         if k == "for":
             if self.mode == "restricted" and ic:
                 return self.plain(d)
-            v = "i%d" % self.nodes
+            v = "k%d" % self.nodes
             return ([I + "for (var %s = 0; %s < 3; %s++) {" % (v, v, v)]
                     + self.block(d + 1, depth - 1, True, True, ic, True) + [I + "}"])
         if k == "while":
@@ -536,44 +514,61 @@ def _units(lines):
     return units
 
 
-def shrink(src, still_fails, max_tests=400):
-    """Greedy delta reduction.  still_fails(list_of_sources) -> list of bool (batched)."""
+def shrink(src, still_fails, max_tests=600, group=8):
+    """Greedy delta reduction.  still_fails(list_of_sources) -> list of bool (batched).
+    Each round: find the units whose single deletion keeps the failure, then accumulate them
+    (largest first) with cumulative-prefix batches of `group` candidates, skipping a candidate
+    that breaks the accumulated deletion; afterwards try unwrapping blocks.  Repeats on the
+    reduced text until nothing more can be removed or the budget is spent."""
     lines = src.split("\n")
     tests = 0
-    changed = True
-    while changed and tests < max_tests:
-        changed = False
+
+    def apply(kill, base):
+        return [l for i, l in enumerate(base) if i not in kill]
+
+    while tests < max_tests:
         units = sorted(_units(lines), key=lambda u: u[0] - u[1])     # largest first
-        cands = []
-        for (a, b) in units:
-            cands.append(("del", a, b, lines[:a] + lines[b + 1:]))
-            if b > a and lines[a].strip().endswith("{") and lines[b].strip() == "}":
-                cands.append(("unwrap", a, b, lines[:a] + lines[a + 1:b] + lines[b + 1:]))
-        if not cands:
+        if not units:
             break
-        cands = cands[:max(1, max_tests - tests)]
-        verdicts = still_fails(["\n".join(c[3]) for c in cands])
-        tests += len(cands)
-        good = [c for c, v in zip(cands, verdicts) if v]
-        if not good:
+        units = units[:max(1, max_tests - tests)]
+        verdicts = still_fails(["\n".join(lines[:a] + lines[b + 1:]) for a, b in units])
+        tests += len(units)
+        good = [u for u, v in zip(units, verdicts) if v]
+        kill = set()
+        i = 0
+        while i < len(good) and tests < max_tests:
+            batch = []
+            acc = set(kill)
+            members = []
+            for (a, b) in good[i:i + group]:
+                acc = acc | set(range(a, b + 1))
+                members.append(set(acc))
+            batch = ["\n".join(apply(k, lines)) for k in members]
+            res = still_fails(batch)
+            tests += len(batch)
+            j = 0
+            while j < len(res) and res[j]:
+                j += 1
+            if j > 0:
+                kill = members[j - 1]
+            i += j + 1 if j < len(res) else j          # skip the candidate that broke the accumulation
+        progressed = bool(kill)
+        if kill:
+            lines = apply(kill, lines)
+        # unwrap blocks: `head {` ... `}`  ->  contents
+        unw = []
+        for (a, b) in _units(lines):
+            if b > a and lines[a].strip().endswith("{") and lines[b].strip() == "}" and not lines[a].lstrip().startswith(("fn ", "@", "struct ", "case ", "default")):
+                unw.append((a, b))
+        if unw and tests < max_tests:
+            unw = unw[:max(1, max_tests - tests)]
+            res = still_fails(["\n".join(lines[:a] + lines[a + 1:b] + lines[b + 1:]) for a, b in unw])
+            tests += len(unw)
+            for (a, b), ok in zip(unw, res):
+                if ok:
+                    lines = lines[:a] + lines[a + 1:b] + lines[b + 1:]
+                    progressed = True
+                    break
+        if not progressed:
             break
-        # apply non-overlapping successful deletions together, verify the combination
-        chosen = []
-        for c in good:
-            if c[0] != "del":
-                continue
-            if all(c[2] < d[1] or c[1] > d[2] for d in chosen):
-                chosen.append(c)
-        if len(chosen) > 1:
-            kill = set()
-            for c in chosen:
-                kill |= set(range(c[1], c[2] + 1))
-            comb = [l for i, l in enumerate(lines) if i not in kill]
-            tests += 1
-            if still_fails(["\n".join(comb)])[0]:
-                lines = comb
-                changed = True
-                continue
-        lines = good[0][3]
-        changed = True
-    return "\n".join(lines)
+    return "\n".join(l for l in lines if l.strip()) + "\n"
